@@ -7,7 +7,8 @@ from common import deviations, emit
 from extract import Extractor
 
 SHAPES = ["no-params", "one-param", "two-params", "default", "annotation", "return-annotation", "multi-line", "multi-line-trailing-comma",
-          "closing-paren-own-line", "method", "async", "decorated", "positional-only", "keyword-only", "comment-after-colon", "default-contains-paren-colon", "varargs"]
+          "closing-paren-own-line", "method", "async", "decorated", "positional-only", "keyword-only", "comment-after-colon", "default-contains-paren-colon", "varargs",
+          "keyword-only-parenthesised-default", "varargs-then-parenthesised-default", "annotated-parenthesised-default-and-return-annotation", "last-positional-parenthesised-default", "keyword-only-tuple-default"]
 BODIES = ["call-target", "argument", "keyword-argument", "attribute-base", "binary-operand", "unary-operand", "compare-operand", "subscript-value", "subscript-index",
           "list-element", "tuple-element", "dict-value", "assert", "return", "await", "in-if", "in-for", "in-while", "in-with", "in-try", "in-except", "in-finally", "augmented-assign", "annotated-assign", "raise",
           "f-string(unjudged)", "lambda(unjudged)", "comprehension(unjudged)", "twice-on-one-line", "nested-call-argument",
@@ -17,7 +18,7 @@ BODIES = ["call-target", "argument", "keyword-argument", "attribute-base", "bina
 BINDINGS = ["visible-undeclared", "declared-parameter", "local-assigned-earlier", "local-assigned-later(unjudged)", "for-target-earlier", "with-target-earlier", "module-level-assignment", "module-level-import", "module-level-def", "only-in-sibling-conftest", "unknown-name",
             "assigned-in-except-earlier", "except-as-name-earlier", "assigned-in-for-else-earlier", "assigned-in-try-finally-earlier", "local-import-earlier", "local-from-import-earlier",
             "local-def-earlier", "local-class-earlier", "tuple-unpack-earlier", "starred-unpack-earlier", "walrus-earlier", "match-capture-earlier", "assigned-in-match-case-earlier",
-            "assigned-in-while-body-earlier", "nested-with-as-tuple-earlier", "async-for-target-earlier", "assigned-in-except-star-earlier"]
+            "assigned-in-while-body-earlier", "nested-with-as-tuple-earlier", "async-for-target-earlier", "assigned-in-except-star-earlier", "assigned-earlier-and-rebound-later", "augmented-earlier-and-rebound-later"]
 FLAVOURS = ["test", "fixture"]
 DIMS = [("shape", SHAPES), ("body", BODIES), ("binding", BINDINGS), ("flavour", FLAVOURS)]
 
@@ -90,6 +91,11 @@ def build(a):
     elif shape == "comment-after-colon": L.append(sig([p] + declared, ":  # note (x):"))
     elif shape == "default-contains-paren-colon": L.append(sig([p] + declared + ['b="):"']))
     elif shape == "varargs": L.append(sig([p] + declared + ["*args", "**kwargs"]))
+    elif shape == "keyword-only-parenthesised-default": L.append(sig(declared + ["*", "b=(1 + 2)"]))
+    elif shape == "varargs-then-parenthesised-default": L.append(sig(declared + ["*args", "b=(3)"]))
+    elif shape == "annotated-parenthesised-default-and-return-annotation": L.append(sig(declared + ["*", "b: int = (1)"], " -> None:"))
+    elif shape == "last-positional-parenthesised-default": L.append(sig([p] + declared + ["b=(1)"]))
+    elif shape == "keyword-only-tuple-default": L.append(sig(declared + ["*", "b=(1, 2)"]))
     bi = ind + "    "
     if bind == "local-assigned-earlier": L.append(bi + "%s = object()" % N)
     if bind == "for-target-earlier":
@@ -111,12 +117,15 @@ def build(a):
         "nested-with-as-tuple-earlier": ["with open('f') as (%s, other0):" % N, "    pass"],
         "async-for-target-earlier": ["async for %s in agen():" % N, "    pass"],
         "assigned-in-except-star-earlier": ["try:", "    pass", "except* ValueError:", "    %s = object()" % N],
+        "assigned-earlier-and-rebound-later": ["%s = object()" % N],
+        "augmented-earlier-and-rebound-later": ["%s = 0" % N, "%s += 1" % N],
     }
     if bind in extra_bind:
         for x in extra_bind[bind]: L.append(bi + x)
     use_first = len(L) + 1
     for x in body_lines(form, N): L.append(bi + x)
     if bind == "local-assigned-later(unjudged)": L.append(bi + "%s = object()" % N)
+    if bind in ("assigned-earlier-and-rebound-later", "augmented-earlier-and-rebound-later"): L.append(bi + "%s = None" % N)
     L.append("")
     # bystander functions (must never be touched by a quick fix)
     L += [ind + "def test_bystander(x1):", ind + "    pass", "", "def test_module_bystander(x2):", "    return x2", ""]
